@@ -121,9 +121,10 @@ def rng(t, cx, ty=None, depth=0):
         inner = rng(t[3], cx, None, depth + 1)
         if t[1] == "IntToInt":
             mx = TYMAX.get(t[2])
+            # facts may be stated about the cast value itself (`(size as u64) == 0` failed)
             if mx is not None and inner[1] is not None and inner[1] <= mx and inner[0] >= TYMIN.get(t[2], 0):
-                return inner
-            return (TYMIN.get(t[2], 0), mx if mx is not None else (1 << 64) - 1)
+                return refine(t, inner, cx)
+            return refine(t, (TYMIN.get(t[2], 0), mx if mx is not None else (1 << 64) - 1), cx)
         if t[1] == "FloatToInt":
             from . import sign
             if sign.cls(t[3], cx) == "ge1":
